@@ -256,6 +256,7 @@ func (e *Ev) callStatic(fn *types.Func, recv *Term, args []Term, n *ast.CallExpr
 				}
 			}
 			if mayWrite {
+				e.matPairs = append(e.matPairs, [2]*Loc{hl, loc})
 				wholeHeap := false
 				for _, c := range b.clauses("modifies") {
 					for _, it := range splitTopSpaces(c.Text) {
@@ -282,6 +283,7 @@ func (e *Ev) callStatic(fn *types.Func, recv *Term, args []Term, n *ast.CallExpr
 		}
 		if len(outs) > 0 {
 			res := e.callStatic(fn, recv, args, n)
+			e.matPairs = nil
 			for _, f := range outs {
 				f()
 			}
@@ -1086,6 +1088,10 @@ func (e *Ev) calleePanic(cond, why string, n ast.Node, modItems []string, ce *Ev
 		pe := &Ev{u: e.u, st: ps, old: e.old, bv: e.bv, bound: map[string]Term{}, guard: append([]string(nil), e.guard...)}
 		for _, h := range modItems {
 			pe.havocItem(h, ce)
+		}
+		// locations passed by copy-in/copy-out receive what the callee left in the temporary
+		for _, pr := range e.matPairs {
+			pe.store(pr[1], pe.load(pr[0], n), n)
 		}
 		e.u.panicExit(ps, smtAnd(e.guardCond(), cond), why, n)
 		e.st.branch(smtImp(e.guardCond(), smtNot(cond)))
